@@ -23,7 +23,7 @@ CLAIMS = {
     'C06': (
         'model_checking',
         'TLC checks the C06 monitors (no two locally issued user events / queries carry the same Lamport time; each carries '
-        'a time strictly greater than every event / query whose processing had completed when the call began) on '
+        'a time strictly greater than every event / query delivered to the application or completely handled before the call began) on '
         'spec/SerfEventsConc.tla (time taken by one atomic Increment()-1, then handled) for 2 (thorough 3) concurrent '
         'callers plus an incoming-message thread: nothing is violated unless a message with time 2^64-1 is processed; the '
         'real Serf.UserEvent / Serf.Query / handlers, yield-instrumented from the working tree, are run under every '
